@@ -588,9 +588,10 @@ class Data(object):
         available, but have missing values.
         """
         if self._remove_missing_across_all:
-            is_missing = np.isnan(self._get_score_cache[0][field])
+            # Infinite values are treated as missing by get_scores, so propagate them as well
+            is_missing = np.isfinite(self._get_score_cache[0][field]) == 0
             for i in range(1, num_inputs):
-                is_missing = is_missing | (np.isnan(self._get_score_cache[i][field]))
+                is_missing = is_missing | (np.isfinite(self._get_score_cache[i][field]) == 0)
             for i in range(num_inputs):
                 self._get_score_cache[i][field][is_missing] = np.nan
 
